@@ -451,6 +451,10 @@ def _gen_model_op(r, root, path, m, sp, malformed):
                     args = [{'t': 'list', 'items': named}]
             return {'k': 'call', 'kind': 'claim-inter' if meth.startswith('claim') else 'unclaim-inter', 'path': path, 'attr': name,
                     'm': meth, 'args': args, 'parent': []}
+        if REP_ASSIGN and r.random() < 0.08 and len(getattr(m, name)):
+            # the whole field is assigned at once: a deep copy of the field itself (the documented way to copy a repeated
+            # field from one model to another)
+            return {'k': 'setattr', 'kind': 'rep-assign', 'path': path, 'attr': name, 'val': {'t': 'copy', 'path': path + [name]}, 'parent': path, 'field': f}
         return _gen_list_op(r, root, path, m, name, tys, sp, malformed, raw=True)
     if c == 'view':
         return _gen_view_op(r, root, path, m, name, sp, malformed)
@@ -508,6 +512,7 @@ def _gen_model_op(r, root, path, m, sp, malformed):
 
 
 _KEEP = []
+REP_ASSIGN = False     # whole-field assignments (`m.raw_x = deepcopy(m.raw_x)`): switched on by the checks that judge them
 _TWO = '2000-01-01 open Assets:A USD, EUR\n2000-01-02 close Assets:A'
 FOREIGN = [
     # (class of the node, host text, host class, path)   - first or last token of the host store, or interior
